@@ -14,3 +14,29 @@ func github.com/ipld/go-ipld-prime/traversal.Progress.checkLinkBudget
 func github.com/ipld/go-ipld-prime/traversal.Progress.WalkAdv
   assumed
   modifies Budget.LinkBudget, Budget.NodeBudget
+
+# datamodel.Path as a finite sequence of segments (Path is an immutable value: a slice of PathSegment)
+fn pathLen(p datamodel.Path) int
+fn pathSeg(p datamodel.Path, i int) datamodel.PathSegment
+axiom pathLen_nonneg: forall p datamodel.Path {pathLen(p)} :: pathLen(p) >= 0
+func github.com/ipld/go-ipld-prime/datamodel.Path.Len
+  assumed
+  modifies nothing
+  ensures result == pathLen(self)
+func github.com/ipld/go-ipld-prime/datamodel.Path.Segments
+  assumed
+  modifies nothing
+  ensures len(result) == pathLen(self) && (forall i int :: 0 <= i && i < len(result) ==> result[i] == pathSeg(self, i))
+func github.com/ipld/go-ipld-prime/datamodel.NewPath
+  assumed
+  modifies nothing
+  ensures pathLen(result) == len(segments) && (forall i int :: 0 <= i && i < len(segments) ==> pathSeg(result, i) == segments[i])
+func github.com/ipld/go-ipld-prime/datamodel.NewPathNocopy
+  assumed
+  modifies nothing
+  ensures pathLen(result) == len(segments) && (forall i int :: 0 <= i && i < len(segments) ==> pathSeg(result, i) == segments[i])
+func github.com/ipld/go-ipld-prime/datamodel.PathSegment.Equals
+  assumed
+  params o
+  modifies nothing
+  ensures result == (self == o)
